@@ -47,11 +47,12 @@ def obligations(tier: str) -> list[dict]:
                 obs.append(ob('msg/%s/%s/K2' % (topo, sh), topo, [sh], 'tables', 2, 200))
         for sh in ('map2', 'nested'):
             obs.append(ob('msg/mgr2x1/%s/K1' % sh, 'mgr2x1', [sh], 'tables', 1, 200))
+        obs.append(ob('msg/flat2/next_mix/K2', 'flat2', ['next_mix'], 'tables', 2, 300))
         for sh in ('submit', 'map2'):
             obs.append(ob('line/flat1/%s/K1' % sh, 'flat1', [sh], 'tables', 1, 200, line=True, maxrank=1))
     else:
         for topo in ('flat1', 'flat2', 'flat3'):
-            for sh in ('submit', 'map2', 'map3', 'next3', 'nested', 'nested_map', 'two_rev'):
+            for sh in ('submit', 'map2', 'map3', 'next3', 'next_mix', 'nested', 'nested_map', 'two_rev', 'two_seq'):
                 obs.append(ob('msg/%s/%s/K2' % (topo, sh), topo, [sh], 'tables', 2, 2400, maxrank=3))
         for topo in ('mgr2x1', 'mgr1x2', 'mgr2x2'):
             for sh in ('submit', 'map2', 'next3', 'nested', 'two_rev'):
